@@ -483,7 +483,12 @@ def st_rejection_case(draw):
         spec = draw(G.st_sdmx(kinds=["SDMXGSettings", "SDMX1Settings", "SDMXG1Settings", "SDMXFullSettings"]))
         cls, args = G.ctor_args(spec)
         targets = _mut_targets(cls, args)
-    kind, i = targets[draw(st.integers(0, len(targets) - 1))]
+    counts = [t for t in targets if t[0] in ("param_drop", "param_extra", "fparam_drop", "fparam_extra")]
+    if counts and draw(st.sampled_from(range(5))) == 0:
+        # parameter-count mutations (the count rule differs per level and per spec) get a fifth of the budget
+        kind, i = counts[draw(st.integers(0, len(counts) - 1))]
+    else:
+        kind, i = targets[draw(st.integers(0, len(targets) - 1))]
     return {"spec": spec, "kind": kind, "arg": i, "pick": draw(st.integers(0, 11))}
 
 
